@@ -373,6 +373,73 @@ def event_log_ops(sym, tier):
     return r
 
 
+
+# ------------------------------------------------------------------ Topic fan-out in the engine
+def topic_fanout(sym, tier):
+    """A real Topic (delivery latency 0 or 1 ms) with 3 potential subscribers in the real engine: a script
+    of subscribe / unsubscribe / publish events at symbolic whole milliseconds.  Every published message
+    reaches exactly the subscribers that were active when its publish began, exactly once each, nobody
+    else; no delivery is dated before the clock; the delivered counter equals the deliveries made."""
+    from happysimulator.components.messaging.topic import Topic
+    from happysimulator.core.event import Event
+    r = Result()
+    lat = [0.0, 0.001][sym.choice("delivery_latency", 2)]
+    topic = Topic("topic", delivery_latency=lat)
+    got = []
+
+    class Sub(Entity):
+        def handle_event(self, event):
+            pl = event.context.get("payload")
+            got.append((self.name, pl.event_type if pl is not None else None, self.now.nanoseconds))
+
+    NS = 2 if tier == "quick" else 3
+    subs = [Sub(f"s{i}") for i in range(NS)]
+    n = 4
+    plan = []
+    t = 0
+    for s_ in range(n):
+        t = t + sym.choice(f"gap{s_}", 2 if tier == "quick" else 3)      # 0, 1 (or 2) ms after the previous step
+        kind = sym.choice(f"op{s_}", 3) if s_ > 0 else 0     # 0 subscribe, 1 unsubscribe, 2 publish
+        who = sym.choice(f"who{s_}", NS) if kind != 2 else 0
+        plan.append((t, kind, who))
+    expected = []         # (subscriber, message)
+    active = set()
+    evs = []
+    # the expected audience of a publish is the set active when its event is processed: plan order at equal instants = creation order
+    for i, (tm, kind, who) in enumerate(plan):
+        if kind == 0:
+            evs.append(Event.once(time=Instant(tm * 1_000_000), event_type=f"sub{i}", fn=lambda e, w=who: topic.subscribe(subs[w]) and None))
+            active.add(who)
+        elif kind == 1:
+            evs.append(Event.once(time=Instant(tm * 1_000_000), event_type=f"unsub{i}", fn=lambda e, w=who: topic.unsubscribe(subs[w])))
+            active.discard(who)
+        else:
+            msg = Event(time=Instant(tm * 1_000_000), event_type=f"m{i}", target=subs[0])
+            evs.append(Event(time=Instant(tm * 1_000_000), event_type="publish", target=topic, context={"payload": msg}))
+            for w in sorted(active):
+                expected.append((f"s{w}", f"m{i}"))
+            if active:
+                r.wit.add("published_to_somebody")
+    sim = Simulation(entities=[topic] + subs)
+    mon = Monitor(sim, cap=60)
+    evs.append(mk_event((t + 20) * 1_000_000, "keepalive", subs[0]))
+    sim.schedule(evs)
+    try:
+        sim.run()
+    except SpinDetected:
+        pass
+    mon.judge(r, "topic")
+    deliveries = sorted((a, b) for (a, b, c) in got if b is not None and b.startswith("m"))
+    if deliveries != sorted(expected):
+        r.bad("every_message_reaches_exactly_the_active_subscribers_once", {"plan": plan, "latency_s": lat, "delivered": deliveries, "expected": sorted(expected)})
+    if topic.stats.messages_delivered != len(expected):
+        r.bad("delivered_counter_matches_deliveries", {"counter": topic.stats.messages_delivered, "expected": len(expected), "plan": plan})
+    if lat > 0 and expected:
+        r.wit.add("non_zero_delivery_latency")
+    r.obs = {"plan": plan, "deliveries": deliveries}
+    return r
+
+
 MANIFEST = {
     "note": "Message-queue delivery latency from {0, 1 ms}; publish / poll instants are symbolic whole milliseconds; consumer reactions are a symbolic script. "
             "Topic, EventLog offsets/retention, stream processor, outbox relay and idempotency store are not covered by this check.",
@@ -387,6 +454,12 @@ HARNESSES = [
       functions=["MessageQueue.publish/poll/_deliver_message/acknowledge/reject/handle_event/_get_next_consumer", "DeadLetterQueue.add_message"],
       bounds=lambda tier: {"messages": 2, "polls": 3 if tier == "quick" else 4, "consumer actions": ["ack", "reject+requeue", "reject", "ignore (optionally acknowledged late after a visibility timeout + schedule_redelivery)"], "max_redeliveries": [1, 2], "delivery latency": [0.0, 0.001]},
       outside=["several consumers / unsubscribe during a delivery", "Topic fan-out", "EventLog offsets and retention", "stream_processor, outbox_relay, idempotency_store"]),
+    H(name="c19_topic_fanout", fn=topic_fanout, shape="S", budget=lambda tier: 900.0 if tier == "quick" else 3000.0,
+      cubes=lambda tier: [{"delivery_latency": a, "op1": b, "gap1": g} for a in range(2) for b in range(3) for g in range(2 if tier == "quick" else 3)],
+      require=lambda tier: ["published_to_somebody", "non_zero_delivery_latency"], classify=asg_classify,
+      functions=["Topic.subscribe/unsubscribe/publish/handle_event"],
+      bounds=lambda tier: {"subscribers": 2 if tier == "quick" else 3, "steps": 4, "step kinds": ["subscribe", "unsubscribe", "publish"], "instants": "whole ms, each 0-1 (thorough 0-2) ms after the previous step", "delivery latency": [0.0, 0.001]},
+      outside=["replay_history / retained messages", "max_subscribers", "a membership change while a publish is paying its delivery latency (the audience is fixed when the publish begins)"]),
     H(name="c19_event_log_ops", fn=event_log_ops, shape="S", budget=lambda tier: 900.0 if tier == "quick" else 3000.0,
       cubes=lambda tier: [{"retention_max_records": a, "op1": b, "op2": c} for a in range(3) for b in range(3) for c in range(3)],
       require=lambda tier: ["records_expired", "read_below_the_retained_range"], classify=asg_classify,
